@@ -1,0 +1,9 @@
+//go:build verif
+
+package replica
+
+// VerifGarbageCollect runs one round of the write-ahead-log garbage-collect task (the ticker body of
+// garbageCollectTask): every partition's IsExpire, and the removal of the partitions that report expired.
+func VerifGarbageCollect(m WriteAheadLogManager) {
+	m.(*writeAheadLogManager).garbageCollect()
+}
